@@ -30,14 +30,25 @@ RULE = ('binding forests over 2-7 variables (each bound variable gets a term ove
         'variable chains; plus random nearly-unifying pairs; run through engine.unify (api), through compiled clauses '
         '(documented `[get_value(..) for _ in q]` idiom + assertz) and through findall/3.  Non-trivial: at the answer some '
         'variable cell stores a structure that contains (unresolved) a variable which is bound now, i.e. the inner '
-        'variable was bound later than the structure, and a probe reaches it.  Distinct by hash of the case.')
+        'variable was bound later than the structure, and a probe reaches it.  Distinct by hash of the case.  '
+        'Round 3, mode prog (props/c15_prog.py): programs in which a (partial) goal term reaches call/1..N with extra arguments, once/1, '
+        'findall/3 and helper predicates directly / flipped / inside a structure / through variable chains / inline / as a query argument '
+        '(random programs + the product of these ways x groundness x meta call), 20% also through asserta/assertz/retract/retractall; every '
+        'query run compiled and through the API (one yp.query generator per body goal); get_value and to_python of EVERY query variable and '
+        'get_value of every live Variable at every answer; compared with the Coq model of whole programs (Sem/Machine.v).  Non-trivial '
+        'there: the query has an answer and a goal with extra arguments / findall / once / an outer-first unification was run.  '
+        'Retention in all modes: every value obtained and every argument list passed in is kept with a structural snapshot, re-rendered '
+        'after every later engine operation (must be unchanged), and must share no Functor / _args object with other retained values, '
+        'live variable cells, stored facts or caller-built terms.')
 TRUSTED_BASE = [
     'Coq 8.16.1 kernel (coqc); vm_compute for the in-Coq evaluation of the model on every case; no native_compute',
     'no axioms: all C15 theorems are closed under the global context',
     'hand-written model Engine/GetValue.v of engine.py get_value / Variable.get_value / Functor.get_value / to_python; '
     'tied to /repo by this differential run (not by translation)',
     'the store at the answer is computed by the C02 model of unify (Unify/Unify.v) from the same equations',
-    'harness: generators, driver of the implementation (harness/props/c15.py), parser of the printed observations',
+    'harness: generators, driver of the implementation (harness/props/c15.py, c15_prog.py), parser of the printed observations',
+    'mode prog: the model of whole programs Sem/Machine.v (query) through Engine/RunAnswers.v, reading the same source text with the model front end Lang/Front.v',
+    'object-level model Engine/ValueHeap.v: tied to the implementation by the retention oracle (fresh Functor/_args objects, unchanged structure), not by differential evaluation',
 ]
 ASSUMPTIONS = ['raw Python constants are ints and strs', 'cases whose equations need a cyclic term (model: cyc) are unspecified',
                'the Python recursion depth needed by get_value (the fuel of gv) is not compared, only that it returns']
@@ -233,7 +244,7 @@ def gen(rng, tier):
                               'probes': [['v', 0], ['f', 'w', [['v', 0]]], terms.mklist([['v', 0]])] if mode != 'findall' else [['f', 'w', [['v', 0]]]],
                               'shuffle': len(cases) % 7, 'listsyntax': True, 'origin': 'orders'})
     # terms passed through the builtins and API paths that take a term apart or build on it (props/c15_prog.py)
-    prog = [P.gen_random(rng) for _ in range(150 if tier == 'quick' else 3000)]
+    prog = [P.gen_random(rng) for _ in range(150 if tier == "quick" else 2000)]
     paths = P.gen_paths()
     if tier == 'quick':
         paths = rng.sample(paths, 90)
